@@ -627,6 +627,30 @@ def cancel_is_synchronous(ctx):
         raise AnalysisError('cancelSignalNotification never calls delMatch')
 
 
+def _formats_first_param(m, fname, depth):
+    """Every value the module function returns is `<its first parameter> %
+    (...)` - directly or through another such function."""
+    f = m.funcs.get(fname)
+    if f is None or depth > 3 or not f.params():
+        return False
+    p0 = f.params()[0]
+    rets = [n.value for n in ast.walk(f.node)
+            if isinstance(n, ast.Return) and n.value is not None]
+    if not rets:
+        return False
+    for v in rets:
+        if isinstance(v, ast.BinOp) and isinstance(v.op, ast.Mod) and \
+                isinstance(v.left, ast.Name) and v.left.id == p0:
+            continue
+        if isinstance(v, ast.Call) and isinstance(v.func, ast.Name) and \
+                v.args and isinstance(v.args[0], ast.Name) and \
+                v.args[0].id == p0 and \
+                _formats_first_param(m, v.func.id, depth + 1):
+            continue
+        return False
+    return True
+
+
 def rule_text(ctx):
     prog = ctx.prog
     fi = prog.func('client.DBusClientConnection.addMatch')
@@ -695,6 +719,16 @@ def rule_text(ctx):
                             isinstance(n.left, ast.Constant) and \
                             isinstance(n.left.value, str):
                         found.add(n.left.value)
+                    # the format handed to a module-level helper that
+                    # applies it: _key('arg%d', idx) with `fmt % (idx,)`
+                    if isinstance(n, ast.Call) and \
+                            isinstance(n.func, ast.Name) and \
+                            n.func.id in fi.module.funcs and n.args and \
+                            isinstance(n.args[0], ast.Constant) and \
+                            isinstance(n.args[0].value, str) and \
+                            '%d' in n.args[0].value and \
+                            _formats_first_param(fi.module, n.func.id, 0):
+                        found.add(n.args[0].value)
             if isinstance(node, (ast.ListComp, ast.GeneratorExp)) and \
                     len(node.generators) == 1 and \
                     isinstance(node.generators[0].iter, ast.Name) and \
@@ -755,6 +789,14 @@ def rule_text(ctx):
         if isinstance(node, ast.Assign) and isinstance(node.value, ast.Dict) \
                 and all(isinstance(k, ast.Constant) for k in node.value.keys):
             keys = [k.value for k in node.value.keys]
+    if keys is None:
+        # the keyword arguments are not built from a literal table in this
+        # function any more (a parser extracted into helpers, a table of
+        # keys): the rule cannot name the keys - that is not a violation
+        raise AnalysisError(
+            'bus.Bus.dbus_AddMatch: the table of match-rule keys passed on '
+            'to MessageRouter.addMatch is not a dict literal in this '
+            'function; C12.D6 cannot be decided for the bus side')
     okb = keys is not None and set(keys) <= set(target.params())
     ctx.ob('C12.D6', bfi.qualname, 'kwargs-are-router-parameters', okb,
            'the keyword arguments built from the rule text must be '
